@@ -114,11 +114,25 @@ static void body(wl_actor *a)
             in_cs(a, pauses);
             for (int k = 1; k < nest; k++) {
                 /* recursive re-acquisition by the owner must succeed at once */
-                if ((arg >> 8) & 1) {
-                    int r = ABT_mutex_trylock(S.m);
-                    SIM_CHECK(r == ABT_SUCCESS, "mutex:recursion", "owner's nested trylock returned %d", r);
-                } else
-                    ABT_OK(ABT_mutex_lock(S.m));
+                switch ((arg >> 6) % 5) {
+                    case 0: {
+                        int r = ABT_mutex_trylock(S.m);
+                        SIM_CHECK(r == ABT_SUCCESS, "mutex:recursion", "owner's nested trylock returned %d", r);
+                        break;
+                    }
+                    case 1:
+                        ABT_OK(ABT_mutex_lock(S.m));
+                        break;
+                    case 2:
+                        ABT_OK(ABT_mutex_spinlock(S.m));
+                        break;
+                    case 3:
+                        ABT_OK(ABT_mutex_lock_low(S.m));
+                        break;
+                    default:
+                        ABT_OK(ABT_mutex_lock_high(S.m));
+                        break;
+                }
                 enter_cs(a);
                 in_cs(a, 0);
             }
@@ -165,12 +179,31 @@ static void run_c04(void)
             ABT_OK(ABT_mutex_attr_set_recursive(attr, ABT_TRUE));
             ABT_OK(ABT_mutex_create_with_attr(attr, &S.m));
             ABT_OK(ABT_mutex_attr_free(&attr));
+        } else if (plan_bool()) {
+            /* an attribute that says "not recursive" explicitly (after having said the opposite) */
+            ABT_mutex_attr attr;
+            ABT_OK(ABT_mutex_attr_create(&attr));
+            ABT_OK(ABT_mutex_attr_set_recursive(attr, ABT_TRUE));
+            ABT_OK(ABT_mutex_attr_set_recursive(attr, ABT_FALSE));
+            ABT_OK(ABT_mutex_create_with_attr(attr, &S.m));
+            ABT_OK(ABT_mutex_attr_free(&attr));
         } else
             ABT_OK(ABT_mutex_create(&S.m));
     } else {
         ABT_mutex_memory init = ABT_MUTEX_INITIALIZER, rinit = ABT_RECURSIVE_MUTEX_INITIALIZER;
         S.mem = S.recursive ? rinit : init;
         S.m = ABT_MUTEX_MEMORY_GET_HANDLE(&S.mem);
+    }
+    {
+        /* what the mutex says about itself */
+        ABT_mutex_attr ga;
+        ABT_bool rec = 2, eq = ABT_FALSE;
+        ABT_OK(ABT_mutex_get_attr(S.m, &ga));
+        ABT_OK(ABT_mutex_attr_get_recursive(ga, &rec));
+        SIM_CHECK((rec == ABT_TRUE) == (S.recursive != 0), "mutex:attr", "a mutex created %s reports recursive=%d", S.recursive ? "recursive" : "non-recursive", (int)rec);
+        ABT_OK(ABT_mutex_attr_free(&ga));
+        ABT_OK(ABT_mutex_equal(S.m, S.m, &eq));
+        SIM_CHECK(eq == ABT_TRUE, "mutex:equal", "ABT_mutex_equal(m, m) is false");
     }
     sim_note("C04 mutex kind=%d cs_yield=%d actors=%d: ", kind, S.cs_yield, n);
     memset(A, 0, sizeof A);
